@@ -1,17 +1,12 @@
 From Coq Require Import String Ascii.
 From Coq Require Import List Arith Lia Bool.
-Require Import TT.Model.Str TT.Proofs.StrFacts TT.Model.TypeParse TT.Proofs.TypeParseProofs TT.Model.Harvest.
+Require Import TT.Model.Str TT.Proofs.StrFacts TT.Model.C07TypeParse TT.Proofs.C07TypeParseProofs TT.Model.Harvest.
 Import ListNotations.
 Local Open Scope char_scope.
 Local Open Scope list_scope.
 
 (* ---------- the harvester's own defect classes ---------- *)
-Fixpoint kf_result_one_arg (t : rty) : bool :=        (* Result<T>: no comma, nothing is harvested *)
-  match t with
-  | RPath n args => (is_name n "Result" && Nat.eqb (List.length args) 1) || existsb kf_result_one_arg args
-  | RRef t => kf_result_one_arg t
-  | RTuple ts => existsb kf_result_one_arg ts
-  end.
+(* kf_result_one_arg lives in Model/Harvest.v *)
 
 Local Open Scope string_scope.
 Definition known_heads := ["Option"; "Result"; "Vec"; "HashMap"; "BTreeMap"; "HashSet"; "BTreeSet"].
